@@ -29,6 +29,7 @@ ORIGINS = {
     "dts": pd.Timestamp("2021-03-01"),      # naive datetimes kept at SECOND resolution (datetime64[s] index); unit = 1 s
 }
 UNIT_NS = {"dts": 10**9}
+BIG_ORIGIN = 2**60
 
 
 class Dom:
@@ -43,6 +44,9 @@ class Dom:
             return float(x)
         if n == "int":      # integer labels for the step points; bounds / query points may fall between them
             return int(x) if F(x).denominator == 1 else float(x)
+        if n == "bigint":   # integer labels beyond 2**53 (not representable as floats): unit 4, origin 2**60; exact or refused
+            assert (4 * F(x)).denominator == 1, x
+            return BIG_ORIGIN + int(4 * F(x))
         u = UNIT_NS.get(n, 3600 * 10**9)
         if n == "td":
             return pd.Timedelta(int(F(x) * u), unit="ns")
@@ -53,12 +57,19 @@ class Dom:
             return float(d)
         if self.name == "int":
             return int(d) if F(d).denominator == 1 else float(d)
+        if self.name == "bigint":
+            assert (4 * F(d)).denominator == 1, d
+            return int(4 * F(d))
         return pd.Timedelta(int(F(d) * UNIT_NS.get(self.name, 3600 * 10**9)), unit="ns")
 
     def back(self, lab):
         n = self.name
         if n in ("float", "int"):
             return F(float(lab)) if not isinstance(lab, (int, np.integer)) else F(int(lab))
+        if n == "bigint":
+            if not isinstance(lab, (int, np.integer)):
+                return "bad:label-" + type(lab).__name__      # a label that is no longer an integer has lost its low bits
+            return F(int(lab) - BIG_ORIGIN, 4)
         u = UNIT_NS.get(n, 3600 * 10**9)
         if n == "td":
             return F(pd.Timedelta(lab).as_unit("ns").value, u)
@@ -72,6 +83,9 @@ class Dom:
         """a length / integral factor in domain units -> Fraction"""
         if self.name in ("float", "int"):
             return num(x)
+        if self.name == "bigint":
+            v = num(x)
+            return v / 4 if isinstance(v, F) else v
         if x is None or (isinstance(x, float) and math.isnan(x)) or x is pd.NaT:
             return None
         try:
@@ -126,6 +140,20 @@ def scalar(v, kind):
 
 
 def container(xs, kind):
+    if kind in ("coarse_index", "coarse_array"):
+        # datetime-like points handed over at SECOND resolution (a DatetimeIndex / TimedeltaIndex with unit 's', or the numpy
+        # array under it); other points as an ordinary array
+        xs = list(xs)
+        try:
+            if xs and all(isinstance(x, pd.Timestamp) for x in xs) and all(x.nanosecond == 0 and x.microsecond == 0 for x in xs):
+                idx = pd.DatetimeIndex(xs).as_unit("s")
+                return idx if kind == "coarse_index" or idx.tz is not None else idx.values
+            if xs and all(isinstance(x, pd.Timedelta) for x in xs) and all(x.value % 10**9 == 0 for x in xs):
+                idx = pd.TimedeltaIndex(xs).as_unit("s")
+                return idx if kind == "coarse_index" else idx.values
+        except Exception:
+            pass
+        return np.array(xs)
     if kind == "ndarray":
         return np.array(xs)
     if kind == "series":
@@ -202,7 +230,7 @@ class Runner:
             ser = pd.Series([self.nanv(v) for _, v in rows], index=[self.dom.to(k) for k, _ in rows], dtype=float)
             if self.fl.get("valdtype") == "int" and not anynan and all(F(v).denominator == 1 for _, v in rows):
                 ser = ser.astype("int64")       # integer-typed step VALUES (the initial value may still be fractional)
-            if self.dom.name == "int":
+            if self.dom.name in ("int", "bigint"):
                 ser.index = ser.index.astype("int64")
             if self.dom.name == "dts":
                 ser.index = pd.DatetimeIndex(ser.index).as_unit("s")      # a coarser-than-nanosecond index (pandas 2 keeps it)
@@ -493,6 +521,8 @@ class Runner:
             elif cont == "tuple":
                 coll = tuple(coll)
             xs = self.xs(s["xs"])
+            if str(self.fl.get("vec", "")).startswith("coarse"):
+                xs = container(xs, self.fl["vec"])
             if s["kind"] == "sample":
                 df = sc.sample(coll, xs)
             else:
@@ -559,7 +589,10 @@ class Runner:
         contiguous = all(ivs[i][1] == ivs[i + 1][0] for i in range(len(ivs) - 1))
         how = self.fl.get("cuts", "index")
         if how == "breaks" and contiguous and ivs:
-            return st.slice([ivs[0][0]] + [b for _, b in ivs], closed=s["icl"])
+            cuts = [ivs[0][0]] + [b for _, b in ivs]
+            if str(self.fl.get("vec", "")).startswith("coarse"):
+                cuts = container(cuts, self.fl["vec"])        # break points as a second-resolution array / index
+            return st.slice(cuts, closed=s["icl"])
         if (how == "period" and self.dom.name == "dt" and ivs
                 and all(F(a).denominator == 1 and F(b) == F(a) + 1 for a, b in s["ivs"])):
             # hourly periods (consecutive or not, in any order): period k is the interval from k to k + 1 of the unit
@@ -612,7 +645,17 @@ class Runner:
         if q == "closed":
             return {"t": "bool", "b": st.closed == "left"}
         if q == "integral":
-            return {"t": "val", "val": d.length_back(st.integral())}
+            try:
+                v = st.integral()
+            except OverflowError:
+                # beyond the range of a Timedelta: a documented limit. The refusal must be repeatable (C14): asked again,
+                # the same object refuses again instead of handing out whatever the first attempt left behind
+                try:
+                    again = st.integral()
+                except OverflowError:
+                    return {"t": "skip"}
+                return {"t": "err", "e": "other", "type": "Inconsistent", "msg": f"integral() raised OverflowError, then returned {again!r}"}
+            return {"t": "val", "val": d.length_back(v)}
         if q == "mean":
             return {"t": "val", "val": num(st.mean())}
         if q == "var":
@@ -680,7 +723,10 @@ class Runner:
             if name == "var":
                 v = st.agg("var", self.where_arg(s), **kw)
                 return {"t": "val", "val": num(v)}
-            v = st.agg(name, self.where_arg(s), **kw)
+            if self.fl.get("opform") == "method":      # the list form returns a Series indexed by the names
+                v = st.agg([name], self.where_arg(s), **kw)[name]
+            else:
+                v = st.agg(name, self.where_arg(s), **kw)
             return {"t": "val", "val": d.length_back(v) if name == "integral" else num(v)}
         if q == "slicer":
             sl = self.slicer(st, s)
@@ -690,6 +736,8 @@ class Runner:
                 res = sl.agg([name])[name]
             elif how == "apply" and name in ("mean", "integral", "median", "mode"):
                 res = sl.apply(getattr(sc.Stairs, name))
+            elif how == "applyargs" and name in ("mean", "integral", "median", "mode"):
+                res = sl.apply(sc.Stairs.agg, name)        # extra positional arguments are handed on to the function
             else:
                 res = getattr(sl, name)()
             conv = d.length_back if name == "integral" else num
@@ -713,7 +761,7 @@ class Runner:
             if s.get("lo") is not None or s.get("hi") is not None:
                 kw["where"] = self.where_arg(s)
             res = st.rolling_mean(window=(d.delta(s["l"]), d.delta(s["rr"])), **kw)
-            return {"t": "ser", "rows": [(d.back(k), num(v)) for k, v in zip(res.index.tolist(), res.values.tolist())]}
+            return {"t": "rows", "rows": [(d.back(k), num(v)) for k, v in zip(res.index.tolist(), res.values.tolist())]}
         if q == "describe":
             kw = {}
             if s.get("lo") is not None or s.get("hi") is not None:
